@@ -23,6 +23,8 @@ theorem of lean/Operon/Props/C18.lean that consumes it:
   * validTable       : HealingOutcome -> HealingResult.valid
   * traceTable       : error_trace the validator reported (None / "" / texts) -> was the default text recorded instead?
   * prefixTable      : length of the raw output -> how many of its characters the retry was shown.
+  * feedTable        : retry i -> which earlier attempts' validator traces / raw outputs its error context carries
+                       (must be exactly attempt i-1), on a fresh loop and on the second call of a used one.
 
 Fail closed: any exception while evaluating a point, or an observation outside the expected vocabulary, makes that
 entry `none`; the consuming theorem then fails.
@@ -360,6 +362,44 @@ def prefix_point(cl, schema, n):
         return None
 
 
+FEED_N = 4
+
+
+def feed_points(cl, schema):
+    """-> for every retry i = 1..FEED_N: (indices of the earlier attempts whose validator trace is visible in the error
+    context shown to attempt i, indices of the earlier attempts whose raw output is visible in it); along two routes
+    (a fresh loop / the second call on a loop that has already healed once) that must agree"""
+    def one(lp):
+        seen = []
+
+        class Chap:
+            n = 0
+
+            def fold_enhanced(self, raw, sch, *a, **kw):
+                self.n += 1
+                return _Fold(False, f"trace-{self.n - 1}-end")
+
+        def gen(prompt, ctx=None):
+            seen.append(ctx)
+            return f"bad-{len(seen) - 1}-out"
+        lp.generator, lp.chaperone = gen, Chap()
+        lp.heal("p")
+        if len(seen) != FEED_N + 1 or seen[0] is not None or not all(isinstance(c, str) for c in seen[1:]):
+            return None
+        return [([j for j in range(FEED_N + 1) if f"trace-{j}-end" in seen[i]],
+                 [j for j in range(FEED_N + 1) if f"bad-{j}-out" in seen[i]]) for i in range(1, FEED_N + 1)]
+    try:
+        a = one(_mk_loop(cl, schema, max_retries=FEED_N))
+        lp = _mk_loop(cl, schema, max_retries=FEED_N)
+        one(lp)
+        b = one(lp)
+        if a is None or a != b:
+            return [None] * FEED_N
+        return a
+    except Exception:
+        return [None] * FEED_N
+
+
 def valid_point(cl, name):
     try:
         o = cl.HealingOutcome[name]
@@ -467,6 +507,10 @@ def render(cl, rs, nu, providers):
           [f"({_opt(t, _str)}, {_opt(trace_point(cl, S, t), lambda b: 'true' if b else 'false')})" for t in TRACES])
     table("prefixTable", "length of the raw output ↦ number of its leading characters the retry is shown", "Nat × Option Nat",
           [f"({n}, {_opt(prefix_point(cl, S, n))})" for n in PREFIX_LENS])
+    lst = lambda xs: "[" + ", ".join(map(str, xs)) + "]"     # noqa: E731
+    table("feedTable", "retry i ↦ (attempts whose validator trace, attempts whose raw output) the error context shown to it carries",
+          "Nat × Option (List Nat × List Nat)",
+          [f"({i + 1}, {_opt(pt, lambda q: f'({lst(q[0])}, {lst(q[1])})')})" for i, pt in enumerate(feed_points(cl, S))])
     d = defaults(cl, rs, nu, providers, S)
     L.append("/-- limits as the classes declare them when the caller does not name them -/")
     L.append(f"def defaultMaxRetries : Option Int := {_opt(d['max_retries'], _int)}")
@@ -485,7 +529,7 @@ def render(cl, rs, nu, providers):
 def run(lean_dir: Path, write_if_changed, cl, rs, nu, providers) -> list[dict]:
     text, info = render(cl, rs, nu, providers)
     changed = write_if_changed(Path(lean_dir) / "Operon/Gen/LoopTables.lean", text)
-    points = len(LIMS) * 2 + len(SLIMS) ** 2 + len(MARKER_PROBES) + len(PATTERNS) * len(THRS) + 3 + len(TRACES) + len(PREFIX_LENS) + 7
+    points = len(LIMS) * 2 + len(SLIMS) ** 2 + len(MARKER_PROBES) + len(PATTERNS) * len(THRS) + 3 + len(TRACES) + len(PREFIX_LENS) + FEED_N + 7
     return [{"id": "eval-loops", "facts_changed": bool(changed), "points": points, "poisoned": info["poisoned"]}]
 
 
